@@ -23,7 +23,7 @@ ExpRow(i) == [exp |-> DeclExpected(i, entries[i]),
 
 Row == [top |-> top, far |-> far, entries |-> entries, shape |-> shape, out |-> out, log |-> log,
         per |-> [i \in DOMAIN entries |-> ExpRow(i)],
-        nobatch |-> BatchDisabled, processed |-> PureProcessed, topcode |-> PureTopCode]
+        nobatch |-> BatchDisabled, validator |-> HasValidator, processed |-> PureProcessed, topcode |-> PureTopCode]
 
 fullview == <<view, want>>
 
@@ -54,7 +54,22 @@ RObj(d) ==
       RParams(d),
       Pick(<<"int", "int", "int", "int", "str", "str", "str", "absent", "absent", "absent", "null",
              "float", "obj", "bool", "arr">>))
+\* a typed method: every slot draws from the tokens its type class has (null and good values weighted)
+RTokTy(ty) == Pick(<<"p", "p", "p", "nul", "nul", RandomElement(TokOf(ty)), RandomElement(TokOf(ty))>>)
+RTyped(d) ==
+  LET m  == RandomElement(TMethods)
+      ta == MCMethods[m].params[1].ty
+      tb == MCMethods[m].params[2].ty
+      k  == Pick(<<"absent", "null", "pos", "pos", "pos", "named", "named", "named", "named">>)
+      n  == Pick(<<0, 1, 1, 2, 2, 2, 3>>)
+      va == Pick(<<NoTok, RTokTy(ta), RTokTy(ta)>>)
+      vb == Pick(<<NoTok, RTokTy(tb), RTokTy(tb)>>)
+      p  == IF k = "absent" THEN PAbsent ELSE IF k = "null" THEN PNull
+            ELSE IF k = "pos" THEN PPos([i \in 1..n |-> IF i = 1 THEN RTokTy(ta) ELSE IF i = 2 THEN RTokTy(tb) ELSE "p"])
+            ELSE PNamed(va, vb, Pick(<<NoTok, NoTok, NoTok, NoTok, NoTok, "p">>))
+  IN Obj("v2", m, p, Pick(<<"int", "int", "int", "str", "str", "absent", "null">>))
 REntry(d) == IF RandomElement(1..12) = 1 THEN Pick(<<NonObj("scalar"), NonObj("null"), NonObj("arr")>>)
+             ELSE IF RandomElement(1..4) = 1 THEN RTyped(d)
              ELSE RObj(d)
 
 MBTInit == Init /\ want = 0
